@@ -6,7 +6,8 @@ import TorchDataVerif.Model.NodeCore
 `torchdata/stateful_dataloader/stateful_dataloader.py` (`StatefulDataLoader.__iter__`, `state_dict`,
 `load_state_dict`, `_get_iterator`), as they are after the three `fix:` commits to `loader.py`
 (`_has_cached_item`; `_cached_state_dict` cleared on reset and when the look-ahead hits
-`StopIteration`; `load_state_dict` clears `_iter_for_state_dict`).
+`StopIteration`; `load_state_dict` clears `_iter_for_state_dict` and drops the iterator that was created
+only for a `state_dict()`).
 
 API histories are lists of `Op`; every op yields one `Obs`.  State dicts are values kept in a token
 list; `load i` loads the `i`-th token handed out so far.  `fresh` replaces the loader object by a newly
@@ -67,8 +68,8 @@ structure It where
   cached : Option Item
   cachedSd : Option (SD root)
 
-/-- `LoaderIterator(loader)` over a root that was never reset. -/
-def newIt : It root := ⟨root.rfresh, 0, none, none⟩
+/-- `LoaderIterator(loader)` over the root object in runtime state `base`. -/
+def newIt (base : Run root) : It root := ⟨base, 0, none, none⟩
 
 /-- `LoaderIterator.reset(initial_state)` -/
 def itReset (it : It root) : Option (SD root) → It root
@@ -115,14 +116,17 @@ def itHasNext (it : It root) : HN × It root :=
 
 /-! ## `Loader` -/
 
-/-- `handle`: the user holds an iterator returned by `iter()` (it is always the one object `_it`). -/
+/-- `handle`: the user holds an iterator returned by `iter()` (it is always the one object `_it`).
+`base`: the runtime state of the root object while no `LoaderIterator` exists (`_it is None`): never reset for
+a new loader, or what the iterator dropped by `load_state_dict` left behind. -/
 structure State where
   it : Option (It root)
   pending : Option (SD root)
   iterForSd : Bool
   handle : Bool
+  base : Run root
 
-def State.init : State root := ⟨none, none, false, false⟩
+def State.init : State root := ⟨none, none, false, false, root.rfresh⟩
 
 structure IterRes where
   err : Option Nat
@@ -145,7 +149,7 @@ def startIt (restart : Bool) (pending : Option (SD root)) (flag : Bool) (it : It
 /-- `Loader.__iter__` -/
 def iterCore (restart : Bool) (s : State root) : IterRes root :=
   match s.it with
-  | none => startIt root restart s.pending s.iterForSd (newIt root)
+  | none => startIt root restart s.pending s.iterForSd (newIt root s.base)
   | some it =>
     if s.iterForSd then ⟨none, it, s.pending, false⟩
     else startIt root restart s.pending s.iterForSd it
@@ -154,9 +158,9 @@ def iterCore (restart : Bool) (s : State root) : IterRes root :=
 def iter (restart : Bool) (s : State root) : Obs × State root :=
   match (iterCore root restart s).err with
   | none => (.ok, ⟨some (iterCore root restart s).it, (iterCore root restart s).pending,
-      (iterCore root restart s).iterForSd, true⟩)
+      (iterCore root restart s).iterForSd, true, s.base⟩)
   | some e => (.err e, ⟨some (iterCore root restart s).it, (iterCore root restart s).pending,
-      (iterCore root restart s).iterForSd, s.handle⟩)
+      (iterCore root restart s).iterForSd, s.handle, s.base⟩)
 
 /-- `Loader.state_dict` -/
 def stateDict (restart : Bool) (s : State root) : Except Nat (SD root) × State root :=
@@ -165,13 +169,16 @@ def stateDict (restart : Bool) (s : State root) : Except Nat (SD root) × State 
   | none =>
     match (iterCore root restart s).err with
     | some e => (.error e, ⟨some (iterCore root restart s).it, (iterCore root restart s).pending,
-        (iterCore root restart s).iterForSd, s.handle⟩)
+        (iterCore root restart s).iterForSd, s.handle, s.base⟩)
     | none => (.ok (itGet root (iterCore root restart s).it).1,
-        ⟨some (itGet root (iterCore root restart s).it).2, (iterCore root restart s).pending, true, s.handle⟩)
+        ⟨some (itGet root (iterCore root restart s).it).2, (iterCore root restart s).pending, true, s.handle, s.base⟩)
 
-/-- `Loader.load_state_dict` -/
+/-- `Loader.load_state_dict`: an iterator that exists only because of a `state_dict()` is dropped (the root
+object stays as that iterator left it). -/
 def load (s : State root) (sd : SD root) : State root :=
-  { s with pending := some sd, iterForSd := false }
+  match s.iterForSd, s.it with
+  | true, some it => ⟨none, some sd, false, s.handle, it.r⟩
+  | _, _ => { s with pending := some sd, iterForSd := false }
 
 /-- `next(it)` on the iterator in hand. -/
 def next (s : State root) : Obs × State root :=
@@ -231,12 +238,6 @@ def good (restart : Bool) : Sys root → List Op → Bool
   | s, .iter :: ops => okIter root s.st && good restart (step root restart s .iter).2 ops
   | s, op :: ops => good restart (step root restart s op).2 ops
 
-/-- Every `peek` of the history finds an existing iterator. -/
-def peekOk (restart : Bool) : Sys root → List Op → Bool
-  | _, [] => true
-  | s, .peek :: ops => s.st.it.isSome && peekOk restart (step root restart s .peek).2 ops
-  | s, op :: ops => peekOk restart (step root restart s op).2 ops
-
 /-- The observations of a history, those of `peek` calls left out. -/
 def obsSkipPeek (restart : Bool) : Sys root → List Op → List Obs
   | _, [] => []
@@ -254,7 +255,8 @@ only because of a `state_dict()`.
 * each `iter` starts a new full epoch unless a state was loaded since the last `iter`, in which case it
   starts from that state;
 * `state_dict` refers to the most recently requested iterator; if none exists it creates one, exactly as
-  `iter` would, which the next `iter` reuses exactly once and which a `load` invalidates;
+  `iter` would, which the next `iter` reuses exactly once and which a `load` invalidates (it then no longer
+  exists);
 * a state taken after the last item resumes into the next epoch (`restart`) or into an empty one;
 * the epoch index advances by exactly one per epoch in which at least one item was requested and is the
   saved epoch after a resume.
@@ -319,6 +321,11 @@ def stateDict (s : RState) : RTok × RState :=
     (⟨(start epochs restart resumeReq s).e, (start epochs restart resumeReq s).p⟩,
       ⟨some (start epochs restart resumeReq s), none, true, s.handle⟩)
 
+/-- A load is pending for the next start; an iterator that exists only because of a `state_dict` is
+invalidated: it is no longer "the most recently requested iterator". -/
+def load (s : RState) (t : RTok) : RState :=
+  { s with pending := some t, reuse := false, cur := if s.reuse then none else s.cur }
+
 def step (s : RSys) : Op → Obs × RSys
   | .iter => (.ok, ⟨iter epochs restart resumeReq s.st, s.toks⟩)
   | .next => ((next epochs s.st).1, ⟨(next epochs s.st).2, s.toks⟩)
@@ -327,7 +334,7 @@ def step (s : RSys) : Op → Obs × RSys
   | .peek => (.tok, ⟨(stateDict epochs restart resumeReq s.st).2, s.toks⟩)
   | .load i =>
     match s.toks[i]? with
-    | some t => (.ok, ⟨{ s.st with pending := some t, reuse := false }, s.toks⟩)
+    | some t => (.ok, ⟨load s.st t, s.toks⟩)
     | none => (.skip, s)
   | .abandon => (.ok, ⟨{ s.st with handle := false }, s.toks⟩)
   | .fresh => (.ok, ⟨RState.init, s.toks⟩)
